@@ -46,7 +46,6 @@ class Packer(object):
         # deep copy the object, except the tensors
         tensor_lists = _extract_tensors(obj)
         memo = {id(t): t for t in tensor_lists}
-        self._tensor_memo = copy(memo)  # shallow copy
         self._obj = deepcopy(obj, memo)
 
         # caches
@@ -61,6 +60,15 @@ class Packer(object):
         self._unique_tensor_numel_tot: Optional[int] = None
         self._tensor_numels: Optional[List[int]] = None
         self._tensor_numel_tot: Optional[int] = None
+
+    def _get_tensor_memo(self) -> dict:
+        # deepcopy memo that shares the tensors held now (keyed by their present
+        # ids: a Packer that was itself copied or refilled holds other tensors
+        # than the ones it was made with)
+        tensors = self._params_tensor_list
+        if tensors is None:
+            tensors = _extract_tensors(self._obj)
+        return {id(t): t for t in tensors}
 
     def get_param_tensor_list(self, unique: bool = True) -> List[torch.Tensor]:
         """
@@ -180,7 +188,7 @@ class Packer(object):
                 raise RuntimeError("Mismatch length of the tensors")
 
             if len(tensor_shapes) == 0:
-                return deepcopy(self._obj, copy(self._tensor_memo))
+                return deepcopy(self._obj, self._get_tensor_memo())
 
             # check the tensor shapes
             for i, (tens, shape) in enumerate(zip(tensors, tensor_shapes)):
@@ -199,7 +207,7 @@ class Packer(object):
                 tensors = copy(tensors)
 
             # deepcopy the object, except the tensors
-            memo = copy(self._tensor_memo)
+            memo = self._get_tensor_memo()
             new_obj = deepcopy(self._obj, memo)
             new_obj = _put_tensors(new_obj, tensors)
 
@@ -241,7 +249,7 @@ class Packer(object):
             if isinstance(a, torch.Tensor) and a.numel() != 0:
                 msg = "The number of element does not match. Expected: 0, got: %d" % a.numel()
                 raise RuntimeError(msg)
-            return deepcopy(self._obj, copy(self._tensor_memo))
+            return deepcopy(self._obj, self._get_tensor_memo())
         else:
             assert tensor_numel_tot is not None, "Please report to Github"
             assert tensor_numels is not None, "Please report to Github"
